@@ -19,6 +19,7 @@ UNIT_PROPS = {
     "cob_auth_patch": ["C07"],
     "cob_identity": ["C04"],
     "sync": ["C25"],
+    "term": ["C26"],
 }
 
 CRYPTO_GROUP = ["signature_roundtrip", "public_key_roundtrip"]
@@ -153,5 +154,12 @@ PROPS = {
         "technique": "Verus postconditions (both directions) on the extracted ReplicationFactor, Target::new, Announcer::{is_target_reached,synced_with,timed_out}, Fetcher::{is_target_reached,include_node} against a target_met spec written from the statement",
         "explanation": "is_target_reached returns Some exactly when the target is met (announcer: all preferred seeds synced and the replica count reached; fetcher: all preferred seeds fetched or the replica count reached; the count is the maximum of a range, else the minimum); Announcer::timed_out reports Success exactly then and TimedOut otherwise; synced_with(local node) changes nothing; Fetcher::include_node excludes the local node and nodes that already have a result; ReplicationFactor::range/min keep lower < upper.",
         "not_decided": "success_counts (fold closures), next_node / next_fetch (iterator adapters with closures), Announcer::new, Fetcher::finish, missing_seeds are not ingested; the counts are ghost values assumed to be what success_counts returns.",
+    },
+    "C26": {
+        "vx": ["term"],
+        "kx": [],
+        "technique": "Verus loop invariant + postcondition on the extracted <str as Cell>::truncate over an assumed grapheme/width model of strings; every slice index must be a char boundary (precondition of the slicing stand-ins)",
+        "explanation": "Relative to the assumed string model (grapheme clusters tile the string and end on char boundaries, width is additive over clusters, an ASCII space is one byte and one column), <str as Cell>::truncate never slices at a non-boundary, never overflows, and returns text whose display width is at most the requested width, for every input string, width and delimiter (including the empty delimiter and multi-byte whitespace).",
+        "not_decided": "Line::truncate (loop over items with Option::map_or / last_mut closures) and its termination are not ingested; the string model itself (unicode-segmentation, unicode-display-width, format!/to_owned) is assumed, so this is a proof about the index/width arithmetic of the function, not about Unicode.",
     },
 }
